@@ -37,6 +37,7 @@ struct AnyArg {
     long long sv = 0; unsigned long long uv = 0;
     std::string bytes; double d = 0; float f = 0;
     ST::string st;
+    std::u16string u16; std::u32string u32; std::wstring ws; std::u8string u8;
 };
 // user-defined formatter (the documented extension point): forwards to the library's own overload for the C++
 // type named by `kind`
@@ -63,6 +64,22 @@ inline void format_type(const ST::format_spec &format, ST::format_writer &output
     else if (k == "S") ST::format_type(format, output, a.st);
     else if (k == "ss") ST::format_type(format, output, a.bytes);
     else if (k == "sv") ST::format_type(format, output, std::string_view(a.bytes));
+    else if (k == "p16") ST::format_type(format, output, (const char16_t *)a.u16.c_str());
+    else if (k == "s16") ST::format_type(format, output, a.u16);
+    else if (k == "v16") ST::format_type(format, output, std::u16string_view(a.u16));
+    else if (k == "n16") ST::format_type(format, output, (const char16_t *)nullptr);
+    else if (k == "p32") ST::format_type(format, output, (const char32_t *)a.u32.c_str());
+    else if (k == "s32") ST::format_type(format, output, a.u32);
+    else if (k == "v32") ST::format_type(format, output, std::u32string_view(a.u32));
+    else if (k == "n32") ST::format_type(format, output, (const char32_t *)nullptr);
+    else if (k == "pw") ST::format_type(format, output, (const wchar_t *)a.ws.c_str());
+    else if (k == "sw") ST::format_type(format, output, a.ws);
+    else if (k == "vw") ST::format_type(format, output, std::wstring_view(a.ws));
+    else if (k == "nw") ST::format_type(format, output, (const wchar_t *)nullptr);
+    else if (k == "p8") ST::format_type(format, output, (const char8_t *)a.u8.c_str());
+    else if (k == "s8") ST::format_type(format, output, a.u8);
+    else if (k == "v8") ST::format_type(format, output, std::u8string_view(a.u8));
+    else if (k == "n8") ST::format_type(format, output, (const char8_t *)nullptr);
     else if (k == "d") ST::format_type(format, output, a.d);
     else if (k == "fl") ST::format_type(format, output, a.f);
 }
@@ -77,6 +94,11 @@ static AnyArg parse_arg(const std::string &tok) {
     std::string v = c == std::string::npos ? "" : tok.substr(c + 1);
     const std::string &k = a.kind;
     if (k == "cs" || k == "S" || k == "ss" || k == "sv") { a.bytes = parse_bytes(v); if (k == "S") a.st = raw_string(a.bytes); }
+    else if (k == "p16" || k == "s16" || k == "v16") { for (uint64_t u : parse_units(v, 16)) a.u16.push_back((char16_t)u); }
+    else if (k == "p32" || k == "s32" || k == "v32") { for (uint64_t u : parse_units(v, 32)) a.u32.push_back((char32_t)u); }
+    else if (k == "pw" || k == "sw" || k == "vw") { for (uint64_t u : parse_units(v, 32)) a.ws.push_back((wchar_t)u); }
+    else if (k == "p8" || k == "s8" || k == "v8") { for (char ch : parse_bytes(v)) a.u8.push_back((char8_t)ch); }
+    else if (k == "n16" || k == "n32" || k == "nw" || k == "n8") { }
     else if (k == "d") { uint64_t b = strtoull(v.c_str(), nullptr, 16); memcpy(&a.d, &b, 8); }
     else if (k == "fl") { uint32_t b = (uint32_t)strtoul(v.c_str(), nullptr, 16); memcpy(&a.f, &b, 4); }
     else if (k[0] == 'u' || k == "c8" || k == "c16" || k == "c32" || k == "b") a.uv = strtoull(v.c_str(), nullptr, 10);
@@ -348,8 +370,22 @@ static const std::vector<std::string> STR_KINDS = {"cs", "S", "ss", "sv"};
 static const std::vector<std::string> TEXTS = {"", "a", "hello", "\xC3\xA9", "h\xC3\xA9llo w\xC3\xB6rld", "\xE2\x82\xAC" "5", "0123456789abcdefXYZ", "\x80", "tab\there", "{}",
                                                "\xF0\x9F\x98\x80!", "\xA9", "x\xC3", "\xED\xA0\x80", "\xF7\xBF\xBF\xBF", "\xE2\x82\xAC\xF0\x9F\x98\x80\xC3\xA9"};
 
+// wide / char8_t text arguments (pointer, std::basic_string, std::basic_string_view, null pointers)
+static std::string random_wide_arg(Rng &rng) {
+    static const std::vector<std::string> K16 = {"p16", "s16", "v16"}, K32 = {"p32", "s32", "v32", "pw", "sw", "vw"}, K8 = {"p8", "s8", "v8"}, KN = {"n16", "n32", "nw", "n8"};
+    static const std::vector<std::string> T16 = {"-", "0061", "00e9", "d83dde00", "d800", "20ac0035", "dc00d83d", "006800e9006c006c006f00200077", "0061d83dde000062", "004100000042"};
+    static const std::vector<std::string> T32 = {"-", "00000061", "000000e9", "0001f600", "00110000", "000020ac00000035", "0000d800", "000000610001f60000000062", "000000410000000000000042"};
+    switch (rng.below(8)) {
+    case 0: case 1: case 2: return arg_tok(rng.pick(K16), rng.pick(T16));
+    case 3: case 4: case 5: return arg_tok(rng.pick(K32), rng.pick(T32));
+    case 6: return arg_tok(rng.pick(K8), hex_bytes(rng.pick(TEXTS)));
+    default: return rng.pick(KN);
+    }
+}
+
 static std::string random_arg(Rng &rng, bool allow_float) {
-    unsigned c = (unsigned)rng.below(allow_float ? 12 : 10);
+    unsigned c = (unsigned)rng.below(allow_float ? 13 : 11);
+    if (c == 10 + (allow_float ? 2u : 0u)) return random_wide_arg(rng);
     if (c < 5) { const std::string &k = rng.pick(INT_KINDS); return arg_tok(k, rng.pick(int_values(k))); }
     if (c < 9) {
         const std::string &k = rng.pick(STR_KINDS);
